@@ -138,6 +138,14 @@ func kindPolicy(kind string) *seccomp.Policy {
 		return &seccomp.Policy{DefaultAction: seccomp.ActionAllow, Syscalls: []seccomp.SyscallGroup{{Action: seccomp.ActionErrno, NamesWithCondtions: []seccomp.NameWithConditions{{Name: "getppid", Conditions: seccomp.ArgumentConditions{{Argument: 6, Operation: seccomp.Equal, Value: 1}}}}}}}
 	case "invalid-emptyconds":
 		return &seccomp.Policy{DefaultAction: seccomp.ActionAllow, Syscalls: []seccomp.SyscallGroup{{Action: seccomp.ActionErrno, NamesWithCondtions: []seccomp.NameWithConditions{{Name: "getppid", Conditions: seccomp.ArgumentConditions{}}}}}}
+	case "perm-allowgroup":
+		return &seccomp.Policy{DefaultAction: seccomp.ActionAllow, Syscalls: []seccomp.SyscallGroup{{Action: seccomp.ActionAllow, Names: []string{"getppid"}}}}
+	case "perm-twoallow":
+		return &seccomp.Policy{DefaultAction: seccomp.ActionAllow, Syscalls: []seccomp.SyscallGroup{{Action: seccomp.ActionAllow, Names: []string{"getppid"}}, {Action: seccomp.ActionAllow, Names: []string{"getuid", "getsid"}}}}
+	case "perm-emptydeny":
+		return &seccomp.Policy{DefaultAction: seccomp.ActionAllow, Syscalls: []seccomp.SyscallGroup{{Action: seccomp.ActionErrno}}}
+	case "perm-log":
+		return &seccomp.Policy{DefaultAction: seccomp.ActionLog, Syscalls: []seccomp.SyscallGroup{{Action: seccomp.ActionLog, Names: []string{"getppid"}}}}
 	case "huge":
 		// ~3.7k instructions, allows everything the probes and the runtime need (errno only for getsid with odd arguments)
 		g := seccomp.SyscallGroup{Action: seccomp.ActionErrno}
@@ -360,6 +368,27 @@ func childHist(args []string) {
 			seamMu.Lock()
 			res.Seam = append(res.Seam, seams...)
 			seamMu.Unlock()
+		case "compile":
+			// compilation only (no load), on thread T: what Assemble returns in the process state the history has reached
+			seams = nil
+			run(op.T, func() {
+				res.Tid = gettid()
+				cp := *kindPolicy(op.Kind)
+				insts, err := cp.Assemble()
+				if err != nil {
+					s := err.Error()
+					res.Err = &s
+					return
+				}
+				if raw, err := engine.Raw(insts); err == nil {
+					sf := make([]syscall.SockFilter, len(raw))
+					for i, r := range raw {
+						sf[i] = syscall.SockFilter{Code: r.Op, Jt: r.Jt, Jf: r.Jf, K: r.K}
+					}
+					res.Compiled, res.CompLen = hashSock(sf), len(sf)
+				}
+			})
+			res.Seam = append(res.Seam, seams...)
 		case "supported":
 			seams = nil
 			run(op.T, func() {
